@@ -78,6 +78,25 @@ def live_first(prop, names, key=lambda n: n):
     return [n for n in names if live(n)] + [n for n in names if not live(n)]
 
 
+def deviation_sets(prop, names, max_size=None, key=lambda n: n):
+    """Candidate explanations in the order they must be tried: every set of still-known deviations (smallest first),
+    and only then sets that contain a repaired one (smallest first). A mismatch that the known deviations explain
+    together must never be attributed to a repaired defect just because that explanation needs fewer names."""
+    import itertools
+
+    ordered = live_first(prop, names, key)
+    sigs = Known().entries.get(prop, {})
+    live = [n for n in ordered if any(key(n) in sig for sig in sigs)]
+    top = len(ordered) if max_size is None else min(max_size, len(ordered))
+    for r in range(1, min(top, len(live)) + 1):
+        yield from itertools.combinations(live, r)
+    live_set = set(live)
+    for r in range(1, top + 1):
+        for combo in itertools.combinations(ordered, r):
+            if not set(combo) <= live_set:
+                yield combo
+
+
 class _Violation(Exception):
     pass
 
